@@ -701,7 +701,7 @@ def _get_prop_arrays(
     all_expected_prop_names = [
         ["iq", "imagequality"],
         ["ci", "confidenceindex", "scores", "correlation"],
-        ["ss", "semsignal", "detectorsignal"],
+        ["ds", "ss", "semsignal", "detectorsignal"],
         ["fit", "patternfit"],
     ] + desired_prop_names[4:]
     n_desired_props = len(desired_prop_names)
